@@ -56,12 +56,16 @@ class Region:
         for rq, kd, kk in requests:
             if kd != 'at':
                 continue
-            if _single_atom(rq) is not None:
-                self.substs.append((_single_atom(rq), self.pts[kk]))
+            sol = _solve_for(rq, self.pts[kk], lambda a_: a_[0] == 'sym' and not str(a_[1]).startswith('unit:'))
+            if sol is not None:
+                self.substs.append(sol)          # the request (a symbol of the analysis, possibly scaled by units) is that knot
                 if rq is self.q:
                     self.subst = self.pts[kk]
             else:
-                self.substs.append((_single_atom(self.pts[kk]), rq))          # a constant request: the knot has that value
+                sol = _solve_for(self.pts[kk], rq, lambda a_: a_[0] == 'fn' and a_[1] == 'at')
+                if sol is None:
+                    raise ValueError('request %s cannot be placed on a knot' % alg.show(rq, 60))
+                self.substs.append(sol)          # a constant request: the knot has that value
                 pts[kk] = rq
         self.val = {}
         self.val.update(OrderFacts(pts, ranks).val)
@@ -71,11 +75,37 @@ class Region:
             r_ = {'in': 2 * kk + 2, 'above': 2 * n + 1, 'below': 0}[kd]
             self.val.update(OrderFacts([rq] + pts, [r_] + ranks).val)
         self.O = self
+        self.oob, self._watch = [], False
 
     def simplify(self, p):
         for at_, rep in self.substs:
             p = rebuild(p, lambda a, at_=at_, rep=rep: rep if a == at_ else None)
-        return rebuild(p, self._f)
+        # first the selections (brackets that the region decides as they stand): what a mask or a test leaves out is not evaluated, so it must not be
+        # looked at for positions outside the table; then everything else
+        p = rebuild(p, self._f_brackets)
+        self.pending = alg.contains_atom(p, lambda a: a[0] == 'ind')          # selections not decided yet: what they guard may or may not be evaluated
+        self.oob = []
+        self._watch = True
+        try:
+            return rebuild(p, self._f)
+        finally:
+            self._watch = False
+
+    def _f_brackets(self, a):
+        for at_, rep in self.substs:
+            if a == at_:
+                return rep
+        if a in self.val:
+            return num(self.val[a])
+        if a[0] == 'ind':
+            return self._ind(a)
+        if a[0] == 'fn' and a[1] in ('max', 'min') and len(a) == 3 and a[2][0] == 'B' and a[2][1] == self.label:
+            return self._f(a)
+        if a[0] == 'fn' and a[1] in ('any', 'all') and len(a) == 3 and a[2][0] == 'B' and a[2][1] == self.qlabel:
+            inner = Poly.from_key(a[2][2])
+            if inner.is_const():
+                return inner
+        return None
 
     # ---- atom rules
     def _f(self, a):
@@ -90,6 +120,8 @@ class Region:
             return None
         if a[1] == 'at' and len(a) == 4 and a[2][0] == 'B' and a[2][1] == self.label and a[3][0] == 'P':
             ix = Poly.from_key(a[3][1])
+            if getattr(self, '_watch', False) and ix.is_const() and ix.const_value().denominator == 1 and not -self.n <= ix.const_value() < self.n:
+                self.oob.append(int(ix.const_value()))          # numpy raises IndexError
             if ix.is_const() and ix.const_value().denominator == 1 and -self.n <= ix.const_value() < 0:
                 return index_at(Poly.from_key(a[2][2]), self.label, num(int(ix.const_value()) + self.n))          # counted from the end
             return None
@@ -173,6 +205,21 @@ class Region:
         return rebuild(p, self._f)
 
 
+def _solve_for(m, value, is_var):
+    """m = c * x * (other factors) with x the one atom is_var accepts, to the first power: (x, value / (c * other factors)) so that m == value"""
+    if not m.is_monomial():
+        return None
+    (mono, c), = m.t.items()
+    xs = [(a, e) for a, e in mono if is_var(a)]
+    if len(xs) != 1 or xs[0][1] != 1:
+        return None
+    rest = Poly.const(c)
+    for a, e in mono:
+        if a != xs[0][0]:
+            rest = rest * Poly.atom(a).pow(e)
+    return xs[0][0], value * rest.pow(-1)
+
+
 def _single_atom(p):
     if p.is_monomial():
         (m, c), = p.t.items()
@@ -226,6 +273,9 @@ def decide_lookup(value, q, knots_p, table, label, n, qlabel=None, outside='clam
             got = Rg.simplify(value)
         except (RecursionError, ZeroDivisionError) as e:
             out.append((name, None, 'not simplified: %s' % type(e).__name__))
+            continue
+        if Rg.oob:
+            out.append((name, None if Rg.pending else False, 'reads position %d of a table of %d knots (IndexError)' % (Rg.oob[0], n)))
             continue
         qq = Rg.subst if Rg.subst is not None else q
         if outside == 'zero-outside' and kind in ('below', 'above'):
